@@ -16,7 +16,7 @@ class Job:
     def __init__(self, jid, prop, harness, repo_files, defines=(), variant="slack", models=("libc_models.c",),
                  unwind_rules=(), unwind_default=None, cbmc_flags=(), timeout=120, mem_gb=8,
                  memchecks=False, fn=None, bounds=None, exclude=None, only=None, witness=None,
-                 extra_sources=(), ptrorder=True, repo_defines=(), remove_bodies=(), object_bits=None, harness_unwind=70):
+                 extra_sources=(), ptrorder=True, repo_defines=(), remove_bodies=(), object_bits=None, harness_unwind=400, retry_unwind=None):
         self.jid = jid
         self.prop = prop
         self.harness = harness            # file name under harness/
@@ -41,6 +41,7 @@ class Job:
         self.remove_bodies = list(remove_bodies)
         self.object_bits = object_bits
         self.harness_unwind = harness_unwind
+        self.retry_unwind = retry_unwind
 
     def all_defines(self, witness=False):
         d = ["-DPROP_%s" % self.prop] + list(self.defines)
@@ -84,7 +85,7 @@ class Job:
             fl += ["--object-bits", str(self.object_bits)]
         return fl
 
-    def run(self, with_witness=False):
+    def run(self, with_witness=False, _retry=False):
         """Returns dict: verdict in {HOLDS, FAILED, INCONCLUSIVE, ERROR}, failures[], secs, ..."""
         t0 = time.time()
         res = {"job": self.jid, "fn": self.fn, "prop": self.prop, "variant": self.variant, "bounds": self.bounds,
@@ -128,6 +129,16 @@ class Job:
                 rec.pop("inputs")
                 res["other_failures"].append(rec)
         res["n_properties"] = nprops
+        if unwind_fail and self.retry_unwind and not _retry and not any(u.startswith("model-precondition") for u in unwind_fail):
+            # loop numbering / bounds did not fit the (possibly edited) code: once more with a generous uniform bound
+            saved = (self.unwind_rules, self.unwind_default, self.timeout)
+            self.unwind_rules, self.unwind_default, self.timeout = [], self.retry_unwind, self.timeout * 3
+            try:
+                r2 = self.run(with_witness=with_witness, _retry=True)
+            finally:
+                self.unwind_rules, self.unwind_default, self.timeout = saved
+            r2["note"] = (r2.get("note", "") + " [retried with uniform unwind %d after: %s]" % (self.retry_unwind, ",".join(unwind_fail[:4])))[:600]
+            return r2
         if unwind_fail:
             res["verdict"] = "INCONCLUSIVE"
             res["note"] = "unwinding assertion failed: %s" % ",".join(unwind_fail[:6])
